@@ -1,5 +1,12 @@
 #!/bin/sh
-# MANIFEST.setup_cmd — offline build of the engines (filled in as engines land).
+# MANIFEST.setup_cmd — offline build of the engines from files on disk only.
 set -e
 cd "$(dirname "$0")"
-exit 0
+export CARGO_NET_OFFLINE=true
+mkdir -p .build replays evidence
+# Engine B (fmtsim): generate tables, build against /repo's working tree
+python3 fmtsim/gen.py --corpus-seed 1 --random-types 140 >/dev/null
+cp /repo/Cargo.lock fmtsim/Cargo.lock
+(cd fmtsim && cargo build --release --offline)
+# Engine A (sessim)
+if [ -x sessim/setup.sh ]; then sessim/setup.sh; fi
